@@ -14,6 +14,7 @@ import SyslModel.SeqDiag.Proto
 import SyslModel.Relmod.Proto
 import SyslModel.Eval.Proto
 import SyslModel.Compile.Proto
+import SyslModel.JsonClean.Proto
 
 open Lean (Json)
 open SyslModel
@@ -28,6 +29,7 @@ def dispatch (op : String) (j : Json) : Option Json :=
   else if op.startsWith "relmod." then Relmod.handle op j
   else if op.startsWith "eval." then Eval.handle op j
   else if op.startsWith "compile." then Compile.handle op j
+  else if op.startsWith "jsonclean." then JsonClean.handle op j
   else none
 
 def handleLine (line : String) : String :=
